@@ -163,6 +163,21 @@ def run(R):
                        site(cx, loops[0].ast if loops else sc))
             else:
                 R.ok('C17.LOP.1', inst, site(cx, stamps[0].ast))
+            sleeps = [c for (n, c) in calls_in_ctx(cx, attr='sleep')]
+            inst = f'{fq} :: the wait lets the clock advance'
+            tick = 0.001        # utils.timestamp() has millisecond resolution
+            if not sleeps:
+                R.fail('C17.LOP.1', inst, fq, stamps[0].ast, 'the timestamp wait never suspends', site(cx, stamps[0].ast))
+            else:
+                for c in sleeps:
+                    v = c.args[0].value if c.args and isinstance(c.args[0], ast.Constant) else None
+                    if not isinstance(v, (int, float)):
+                        raise AnalysisError(f'{fq}: non-constant sleep in the timestamp wait')
+                    if v < tick:
+                        R.fail('C17.LOP.1', inst, fq, c, f'each retry of the timestamp wait sleeps {v}s, less than one clock tick ({tick}s): the '
+                               'bounded wait is used up within the same clock reading', site(cx, c))
+                    else:
+                        R.ok('C17.LOP.1', inst, site(cx, c), f'sleep({v}) >= clock tick')
             for st in stamps:
                 inst = f'{fq} :: {norm(st.ast)} only when newer'
                 val = ast.unparse(st.ast.value)
@@ -253,6 +268,15 @@ def run(R):
     apps = calls_in_ctx(mk, attr='append')
     if not any('cp.encode()' in ast.unparse(c) for (n, c) in apps):
         probs.append(('the encoded ControlParameters are not appended to the command name', mk.f.node))
+    kwl = [x for x in ast.walk(mk.f.node) if isinstance(x, ast.For) and 'kwargs' in ast.unparse(x.iter)]
+    if len(kwl) != 1 or any(isinstance(x, (ast.Continue, ast.Break, ast.Return)) for x in ast.walk(kwl[0])):
+        probs.append(('not every keyword argument is copied into the ControlParameters (a parameter can be skipped)', kwl[0] if kwl else mk.f.node))
+    else:
+        kv = [ast.unparse(e) for e in kwl[0].target.elts] if isinstance(kwl[0].target, ast.Tuple) else []
+        for t in [x for x in ast.walk(kwl[0]) if isinstance(x, ast.If)]:
+            if len(kv) == 2 and any(isinstance(y, ast.Name) and y.id == kv[1] for y in ast.walk(t.test)):
+                probs.append((f'copying a control parameter depends on its value (`{ast.unparse(t.test)}`): an empty name (the root prefix) '
+                              'or a zero would be dropped', t))
     sets = [c for (n, c) in calls_in_ctx(mk) if isinstance(c.func, ast.Name) and c.func.id == 'setattr']
     if not sets or not all(ast.unparse(c.args[0]) == 'cp.cp' for c in sets):
         probs.append(('keyword arguments are not copied into the ControlParameters', mk.f.node))
@@ -300,6 +324,22 @@ def run(R):
             R.ok('C17.LOP.2', inst, site(rt, rt.f.node))
         else:
             R.fail('C17.LOP.2', inst, rt.qual, 'def decorator', 'route() does not record the route for registration on connect', site(rt, rt.f.node))
+    # v1: register() re-creates the Interest filter on every connection and set_interest_filter refuses an occupied prefix,
+    # so the filters must be dropped when a connection ends (otherwise re-registration raises before any command is sent)
+    rg = ctx(R, 'ndn.app.NDNApp.register')
+    reattach = [c for (n, c) in calls_in_ctx(rg, attr='set_interest_filter')]
+    cu = ctx(R, 'ndn.app.NDNApp._clean_up')
+    inst = 'ndn.app.NDNApp._clean_up :: filters dropped so that routes can be registered again on the next connection'
+    if reattach:
+        clears = [n for (n, c) in calls_in_ctx(cu, attr='clear') if ast.unparse(c.func.value) == 'self._prefix_tree']
+        if not clears or cu.cfg.exit.id in cu.cfg.reachable(removed_nodes={n.id for n in clears}, follow_exc=False):
+            R.fail('C17.LOP.2', inst, cu.qual, 'def _clean_up', 'register() re-attaches the handler on every connection (set_interest_filter refuses '
+                   'an occupied prefix) but the filters are not cleared at disconnect: on reconnect the declared routes raise instead of being registered',
+                   site(cu, cu.f.node))
+        else:
+            R.ok('C17.LOP.2', inst, site(cu, clears[0].ast))
+    else:
+        R.ok('C17.LOP.2', inst, site(rg, rg.f.node), 'register() does not re-attach')
     # parse_response copies every field of ControlParametersValue + status code and text
     px = ctx(R, PARSE)
     inst = 'parse_response :: copies status and every ControlParametersValue field'
